@@ -329,11 +329,12 @@ pub fn build(
         .map(|v| v.functions.iter().map(|f| f.name.clone()).collect())
         .unwrap_or_default();
     // Names of the accessors the backend generates itself
-    if vftable.is_some() {
-        associated_functions_used_names.insert("vftable".to_string());
-    }
-    if singleton.is_some() {
-        associated_functions_used_names.insert("get".to_string());
+    for (present, accessor) in [(vftable.is_some(), "vftable"), (singleton.is_some(), "get")] {
+        if present && !associated_functions_used_names.insert(accessor.to_string()) {
+            anyhow::bail!(
+                "virtual function `{accessor}` of type `{resolvee_path}` has the name of the generated `{accessor}` accessor"
+            );
+        }
     }
     for (i, base_region) in regions.iter().filter(|r| r.is_base).enumerate() {
         // Inject all base associated functions into the type
